@@ -782,6 +782,73 @@ def _prefix_tree_methods(trees):
     return methods
 
 
+def rule_nav(trees):
+    """S-NAV: every search in the ordered map compares the *search key* with the node's key and descends left on Less and right
+    on Greater: insert, remove, split, get and get_mut are sibling implementations of one navigation and must agree."""
+    res = RuleResult("S-NAV")
+    t = trees["eqlog-runtime/src/wbtree/map.rs"]
+    if "error" in t:
+        raise AnchorError("map.rs does not parse")
+    want = {"insert_simple", "remove_existing_node", "split", "get", "get_mut"}
+    seen = set()
+    for qn, fn, imp in find_fns(t["items"]):
+        if fn["n"] not in want or imp is None or not any(x in nospace(imp["ty"]) for x in ("Node<", "WBTreeMap<")):
+            continue
+        params = [p["p"]["n"] for p in fn["params"] if kind(p) == "param" and kind(p["p"]) == "pid"]
+        cmps = [x for x in walk(fn["b"]) if kind(x) == "match" and mcall(x["e"], "cmp")]
+        for mt in cmps:
+            recv = expr_str(mt["e"]["r"])
+            arg = expr_str(mt["e"]["a"][0]) if mt["e"]["a"] else ""
+            where = "eqlog-runtime/src/wbtree/map.rs:%s %s" % (mt["ln"], qn)
+            seen.add(fn["n"])
+            if recv.lstrip("&*") in params and ("key" in arg or "mk" in arg) and arg.lstrip("&*") not in params:
+                res.ok()
+            else:
+                res.bad("S-NAV:%s:comparison-operands" % fn["n"], where, "%s compares `%s.cmp(%s)`; expected <search key>.cmp(<node key>)" % (fn["n"], recv, arg))
+            for arm in mt["arms"]:
+                pat = expr_str({"k": "path", "p": arm["p"].get("p", "")}) if kind(arm["p"]) == "ppath" else ""
+                side = {"Ordering::Less": "left", "Ordering::Greater": "right"}.get(pat)
+                if side is None:
+                    continue
+                other = "right" if side == "left" else "left"
+                # what is descended into: arguments of recursive calls and right-hand sides of cursor assignments
+                desc = []
+                for x in walk(arm["b"]):
+                    if kind(x) == "call" and kind(x["f"]) == "path" and x["f"]["p"].split("::")[-1] == fn["n"] and x["a"]:
+                        desc.append(expr_str(x["a"][0]))
+                    if kind(x) == "assign" and expr_str(x["lhs"]) == "current":
+                        desc.append(expr_str(x["rhs"]))
+                # locals bound from a child field inside the arm: `let old_left = data_node.left.take()`
+                alias = {}
+                for x in walk(arm["b"]):
+                    if kind(x) == "let" and kind(x["p"]) == "pid" and x["e"] is not None:
+                        txt = expr_str(x["e"])
+                        if ".left" in txt and ".right" not in txt:
+                            alias[x["p"]["n"]] = "left"
+                        elif ".right" in txt and ".left" not in txt:
+                            alias[x["p"]["n"]] = "right"
+                if not desc:
+                    res.bad("S-NAV:%s:no-descent" % fn["n"], where, "%s: the %s arm does not descend" % (fn["n"], pat))
+                    continue
+                for dexp in desc:
+                    sides = set()
+                    if ".left" in dexp or dexp in ("left", "&left"):
+                        sides.add("left")
+                    if ".right" in dexp or dexp in ("right", "&right"):
+                        sides.add("right")
+                    if dexp in alias:
+                        sides.add(alias[dexp])
+                    if sides == {side}:
+                        res.ok()
+                    else:
+                        res.bad("S-NAV:%s:wrong-child" % fn["n"], where, "%s: on %s the search descends into `%s` (expected the %s child, not the %s child)" % (fn["n"], pat, dexp, side, other))
+    missing = want - seen
+    if missing:
+        raise AnchorError("navigation functions without a key comparison: %s" % sorted(missing))
+    res.sample({"functions": sorted(seen)})
+    return res
+
+
 def rule_sib(trees):
     """S-SIB: PrefixTree2..9 are the same implementation."""
     res = RuleResult("S-SIB")
